@@ -272,7 +272,10 @@ pub fn run(lines: &[String]) -> Vec<String> {
                         crate::sched::register(tid);
                         let mut res = Vec::new();
                         for op in &ops {
-                            res.push(conc_op(op));
+                            res.push(match std::panic::catch_unwind(std::panic::AssertUnwindSafe(|| conc_op(op))) {
+                                Ok(r) => r,
+                                Err(e) => format!("<panic {}>", e.downcast_ref::<String>().cloned().or_else(|| e.downcast_ref::<&str>().map(|s| s.to_string())).unwrap_or_default().replace('\n', " ")),
+                            });
                         }
                         crate::sched::register(usize::MAX);
                         let _ = dtx.send((tid, res));
